@@ -1,0 +1,61 @@
+//go:build verif
+
+package store
+
+import (
+	"time"
+
+	"github.com/andres-erbsen/clock"
+	"github.com/uber-go/tally"
+
+	"github.com/uber/kraken/lib/store/base"
+	"github.com/uber/kraken/utils/diskspaceutil"
+)
+
+// VerifCleanup exposes the unexported cleanupManager entry points to the
+// verification harness. It only forwards; no cleanup logic lives here.
+type VerifCleanup struct {
+	m *cleanupManager
+}
+
+// NewVerifCleanup creates a cleanupManager on clk without starting any job.
+func NewVerifCleanup(clk clock.Clock, stats tally.Scope) *VerifCleanup {
+	return &VerifCleanup{newCleanupManager(clk, stats)}
+}
+
+// Stop stops the underlying manager.
+func (v *VerifCleanup) Stop() { v.m.stop() }
+
+// Cleanup runs one pass exactly as a cleanup job does (cleanup with the
+// cachedInAgentPolicy custom policy and the real disk usage).
+func (v *VerifCleanup) Cleanup(op base.FileOp, config CleanupConfig) (int64, error) {
+	return v.m.cleanup(op, config.applyDefaults(), cachedInAgentPolicy)
+}
+
+// TTLBasedCleanup forwards to ttlBasedCleanup with an injectable disk usage function.
+func (v *VerifCleanup) TTLBasedCleanup(
+	op base.FileOp, tti, ttl time.Duration, aggroUtilLowerThreshold int,
+	usage func() (diskspaceutil.UsageInfo, error)) (int64, error) {
+	return v.m.ttlBasedCleanup(op, tti, ttl, aggroUtilLowerThreshold, usage)
+}
+
+// CustomPolicyBasedCleanup forwards to customPolicyBasedCleanup with the
+// cachedInAgentPolicy policy and an injectable disk usage function.
+func (v *VerifCleanup) CustomPolicyBasedCleanup(
+	op base.FileOp, config CleanupConfig,
+	usage func() (diskspaceutil.UsageInfo, error)) (int64, error) {
+	return v.m.customPolicyBasedCleanup(op, config.applyDefaults(), cachedInAgentPolicy, usage)
+}
+
+// ShouldAggro forwards to shouldAggro with an injectable disk usage function.
+func (v *VerifCleanup) ShouldAggro(
+	op base.FileOp, config CleanupConfig, usage func() (diskspaceutil.UsageInfo, error)) bool {
+	return v.m.shouldAggro(op, config.applyDefaults(), usage)
+}
+
+// VerifCachedInAgentPolicy exposes the cachedInAgentPolicy comparator.
+func VerifCachedInAgentPolicy(lAccess, lDownload, rAccess, rDownload time.Time) int {
+	return cachedInAgentPolicy(
+		fInfo{accessTime: lAccess, downloadTime: lDownload},
+		fInfo{accessTime: rAccess, downloadTime: rDownload})
+}
